@@ -55,6 +55,14 @@ def put_entry(base, rel, e):
         os.makedirs(p, exist_ok=True)
     elif k == "link":
         os.symlink(e["to"], p)
+    elif k == "hardlink":
+        # a second NAME for the file e["to"] (relative to base); falls back to a copy if the source is not there yet
+        src = os.path.join(base, e["to"])
+        try:
+            os.link(src, p)
+        except OSError:
+            with _real_open(p, "wb") as f:
+                f.write(e.get("text", "").encode("utf-8"))
     else:
         raise ValueError(k)
 
